@@ -467,7 +467,7 @@ class WorldGen:
         self.maybe(m, "thermal conductivity", r.choice([3.3, 2.5, 4]), 0.4)
         self.maybe(m, "coupling depth", r.choice([100e3, 80e3, 50e3, 150e3, 0]), 0.5)
         self.maybe(m, "forearc cooling factor", r.choice([1, 5, 10, 20, 0.5]), 0.5)
-        self.maybe(m, "taper distance", r.choice([100e3, 50e3, 200e3, 0]), 0.5)
+        self.maybe(m, "taper distance", r.choice([100e3, 50e3, 200e3, 0, 400e3, 300e3]), 0.6)   # incl. tapers longer than the slab (they start above the coupling depth)
         self.maybe(m, "thermal expansion coefficient", r.choice([-1, 3e-5, 2.5e-5]), 0.4)
         self.maybe(m, "specific heat", r.choice([-1, 1000, 1250]), 0.4)
         self.maybe(m, "thermal diffusivity", r.choice([-1, 1e-6, 8e-7]), 0.4)
